@@ -32,7 +32,7 @@ def write_oracle(desc, data):
         return 'bytes after the last chunk'
     want = normalised(desc)
     for ti, (got, exp) in enumerate(zip(tracks, want)):
-        exp_raw = [(e[0],) + smf.raw_of_event(e) for e in exp]
+        exp_raw = [(e[0],) + smf.raw_of_event(e, desc.get('charset', 'latin1')) for e in exp]
         if [(d, k, a, list(x)) for (d, k, a, x) in got] != [(d, k, a, list(x)) for (d, k, a, x) in exp_raw]:
             for k, (g, e) in enumerate(zip(got, exp_raw)):
                 if (g[0], g[1], g[2], list(g[3])) != (e[0], e[1], e[2], list(e[3])):
@@ -43,12 +43,12 @@ def write_oracle(desc, data):
     return None
 
 
-def load(data, clip, debug):
+def load(data, clip, debug, charset='latin1'):
     import mido
     if debug:
         with contextlib.redirect_stdout(io.StringIO()):
-            return mido.MidiFile(file=io.BytesIO(bytes(data)), clip=clip, debug=True)
-    return mido.MidiFile(file=io.BytesIO(bytes(data)), clip=clip)
+            return mido.MidiFile(file=io.BytesIO(bytes(data)), clip=clip, debug=True, charset=charset)
+    return mido.MidiFile(file=io.BytesIO(bytes(data)), clip=clip, charset=charset)
 
 
 def impl_case(case):
@@ -80,7 +80,7 @@ def impl_case(case):
         for clip in (False, True):
             for debug in (False, True):
                 try:
-                    m = load(enc, clip, debug)
+                    m = load(enc, clip, debug, desc.get('charset', 'latin1'))
                     per_cfg.append('ok ' + smf.file_line(m))
                 except Exception as e:
                     per_cfg.append('err ' + exc_name(e))
@@ -95,7 +95,7 @@ def impl_case(case):
         res = {}
         for clip in (False, True):
             try:
-                res[clip] = 'ok ' + smf.file_line(load(enc, clip, False))
+                res[clip] = 'ok ' + smf.file_line(load(enc, clip, False, desc.get('charset', 'latin1')))
             except Exception as e:
                 res[clip] = 'err ' + exc_name(e)
         lines.append(res[False])
@@ -141,7 +141,7 @@ def make_bad(rng, desc):
     want = '%d %d' % (d2['type'], d2['tpb']) + ''.join(
         ' |' + ''.join(' ' + _loaded_form(e) for e in tr) for tr in normalised(d2))
     # build bytes: encode d2 (value 127) without running status and patch 127 -> high value at that event
-    enc = smf.encode_alt(rng, {'type': d2['type'], 'tpb': d2['tpb'], 'tracks': normalised(d2)}, pad_max=0, header_extra=0, running='never')
+    enc = smf.encode_alt(rng, {'type': d2['type'], 'tpb': d2['tpb'], 'tracks': normalised(d2), 'charset': d2.get('charset', 'latin1')}, pad_max=0, header_extra=0, running='never')
     # locate the event's data byte: re-encode prefix to find offset
     pre = {'type': d2['type'], 'tpb': d2['tpb'], 'tracks': normalised(d2)}
     # position of event i within normalised track (EOT events before i are removed)
@@ -150,7 +150,7 @@ def make_bad(rng, desc):
     for tj, tr in enumerate(pre['tracks']):
         off += 8
         for ej, ev in enumerate(tr):
-            kind2, a2, data2 = smf.raw_of_event(ev)
+            kind2, a2, data2 = smf.raw_of_event(ev, d2.get('charset', 'latin1'))
             off += len(metas.vlq(ev[0]))
             if tj == ti and ej == k:
                 idx = off + 1 + names.index(name)
@@ -173,7 +173,9 @@ def gen(ck):
     cases = []
     for _ in range(n):
         desc = smf.random_file(rng)
-        norm = {'type': desc['type'], 'tpb': desc['tpb'], 'tracks': normalised(desc)}
+        if rng.random() < 0.15:
+            smf.make_utf8(rng, desc)
+        norm = {'type': desc['type'], 'tpb': desc['tpb'], 'tracks': normalised(desc), 'charset': desc.get('charset', 'latin1')}
         alts = [smf.encode_alt(rng, norm) for _ in range(3)]
         alts.append(smf.encode_alt(rng, norm, pad_max=3, running='always'))
         bad = []
@@ -182,6 +184,16 @@ def gen(ck):
             if b:
                 bad.append(b)
         cases.append({'desc': desc, 'alts': alts, 'bad': bad})
+    # multi-track files whose second chunk header lies at every offset around a multiple of 64 KiB (block boundaries of
+    # any buffered reading must not show)
+    for base in ((65536,) if ck.tier == 'quick' else (4096, 8192, 65536, 131072)):
+        for k in range(-9, 3):
+            ln = base + k - 32
+            desc = {'type': 1, 'tpb': 96, 'tracks': [
+                [(0, 'msg', 'sysex', {'data': tuple((i * 5) % 128 for i in range(ln))}), (0, 'meta', 'end_of_track', {})],
+                [(3, 'msg', 'note_on', {'channel': 1, 'note': 2, 'velocity': 3}), (0, 'meta', 'end_of_track', {})],
+                [(0, 'meta', 'end_of_track', {})]]}
+            cases.append({'desc': desc, 'alts': [], 'bad': []})
     return cases
 
 
@@ -194,7 +206,7 @@ def run(ck):
     for case, (lines, fail) in zip(cases, res):
         desc = case['desc']
         nev = sum(len(t) for t in desc['tracks'])
-        ck.note_case(repr(desc) + repr(case['alts'][0][:50]), nontrivial=nev > 0)
+        ck.note_case(repr(desc)[:5000] + repr((case['alts'] or [[]])[0][:50]), nontrivial=nev > 0)
         ck.count('tracks:%d' % len(desc['tracks']))
         ck.count('encodings', 1 + len(case['alts']))
         ck.count('clip_injections', len(case['bad']))
@@ -202,16 +214,20 @@ def run(ck):
             ck.oracle_fail({'file': jsonable(desc), 'alts': case['alts'], 'bad': [[b, w] for b, w in case['bad']]}, fail)
         if lines and lines[0].startswith('err'):
             continue
+        if sum(len(tr) for tr in desc['tracks']) < 6 and any(len(e[3].get('data', ())) > 3000 for tr in desc['tracks'] for e in tr if e[1] == 'msg'):
+            continue        # the 64 KiB files: oracle only
         encs = case['alts']
+        cs = {'latin1': 'latin1', 'utf-8': 'utf8'}[desc.get('charset', 'latin1')]
+        ck.count('charset:' + cs)
         # lines[0] is the saved encoding (its bytes are not kept here; C07 compares them), then the alternatives
         for enc, line in zip(encs, lines[1:1 + len(encs)]):
-            reqs.append('smfread latin1 0 ' + ' '.join(map(str, enc)))
+            reqs.append('smfread %s 0 %s' % (cs, ' '.join(map(str, enc))))
             impl.append(line)
         k = 1 + len(encs)
         for (enc, _w) in case['bad']:
-            reqs.append('smfread latin1 0 ' + ' '.join(map(str, enc)))
+            reqs.append('smfread %s 0 %s' % (cs, ' '.join(map(str, enc))))
             impl.append(lines[k])
-            reqs.append('smfread latin1 1 ' + ' '.join(map(str, enc)))
+            reqs.append('smfread %s 1 %s' % (cs, ' '.join(map(str, enc))))
             impl.append(lines[k + 1])
             k += 2
     c = cases[1]
